@@ -12,7 +12,7 @@ from . import common
 
 ID = 'C06'
 LEVEL = 'exploration'
-RUNS = {'quick': 1600}
+RUNS = {'quick': 6400}
 BUDGET_S = {'thorough': 600}
 WANT = {'C06'}
 CMD_WEIGHTS = {'filter': 6, 'connection': 5, 'list': 1, 'other': 1, 'breakpoint': 1}
